@@ -32,6 +32,9 @@ _CNT = {}
 
 def reduce_genexp(lib, ex, name, node, st):
     ge = node.args[0]
+    if name == "sum" and len(ge.generators) == 1 and ge.generators[0].ifs and isinstance(ge.elt, ast.Constant) \
+            and ge.elt.value == 1 and isinstance(ge.generators[0].target, ast.Name):
+        return count_if(lib, ex, ge, node, st)
     if name != "sum" or len(ge.generators) != 1 or ge.generators[0].ifs:
         raise Unsupported("%s(genexp) at line %d" % (name, node.lineno))
     g = ge.generators[0]
@@ -54,6 +57,33 @@ def reduce_genexp(lib, ex, name, node, st):
             if k0 != key and lenterm.eq(lst.len):
                 s2.assume(c + c0 <= lst.len)
         prev.append((key, c, lst.len))
+        outs.append((Num(c), s2))
+    return outs
+
+
+def count_if(lib, ex, ge, node, st):
+    """sum(1 for x in L if cond(x)): a count c with 0 <= c <= len(L), c == 0 iff no element satisfies cond"""
+    g = ge.generators[0]
+    var = g.target.id
+    outs = []
+    for it, s in ex.eval(g.iter, st):
+        if isinstance(it, Exc):
+            outs.append((it, s))
+            continue
+        lst = ex.deref(it, s)
+        if not isinstance(lst, SList):
+            raise Unsupported("count over %r" % (lst,))
+
+        def cond_at(i, s=s, lst=lst):
+            s2 = s.fork()
+            s2.loc[var] = lst.at(i)
+            return logic.conj([V.truth(ex.eval_pure(c, s2, node.lineno)) for c in g.ifs])
+        c = z3.Int("count!%s" % _n())
+        k = logic.fresh_idx("witness")
+        s2 = s.fork()
+        s2.assume(z3.And(c >= 0, c <= lst.len))
+        s2.assume(Forall(1, lambda i: z3.Implies(z3.And(c == 0, 0 <= i, i < lst.len), z3.Not(cond_at(i))), [lst.len], "count0"))
+        s2.assume(z3.Implies(c > 0, z3.And(0 <= k, k < lst.len, cond_at(k))))
         outs.append((Num(c), s2))
     return outs
 
